@@ -92,6 +92,8 @@ PLAN = {   # which properties' quick checks are run against which seeded change
     "C15-f": ["C15"], "C17-f": ["C17"], "C19-f": ["C19"],
     "C02-g": ["C02"], "C03-g": ["C03"], "C04-g": ["C04"], "C05-g": ["C05"], "C09-g": ["C09"], "C10-g": ["C10"], "C11-g": ["C11"],
     "C16-g": ["C16"], "C18-g": ["C18"], "C20-g": ["C20"],
+    "C01-h": ["C01"], "C06-h": ["C06"], "C07-h": ["C07"], "C08-h": ["C08"], "C12-h": ["C12"], "C13-h": ["C13"], "C14-h": ["C14"],
+    "C15-h": ["C15"], "C17-h": ["C17"], "C19-h": ["C19"],
 }
 
 
